@@ -139,18 +139,27 @@ def _valid_loc(cfg, v):
 
 
 def check_history(case, ctx):
+    """ops address one of several live grid objects (the original and its copies); every object is checked
+    after every step, so state shared between copies is observed"""
     cfg, ops = case["grid"], case["ops"]
-    g = hg.build(cfg)
-    cur = hg.flags(cfg)[2]
-    read_before = False
+    objs = [hg.build(cfg)]
+    cur = [hg.flags(cfg)[2]]
+    read_before = [False]
     changed_after_read = False
+    copies = False
     for op in ops:
+        k = (op[2] if len(op) > 2 else 0) % len(objs)
+        g = objs[k]
         if op[0] == "read":
             getattr(g, op[1])
             if op[1] in ("data_shape", "data_size", "data_points"):
-                read_before = True
+                read_before[k] = True
         elif op[0] == "copy":
-            g = g.copy(deep=bool(op[1]))
+            if len(objs) < 4:
+                objs.append(g.copy(deep=bool(op[1])))
+                cur.append(cur[k])
+                read_before.append(read_before[k])
+                copies = True
         elif op[0] == "setloc":
             name = _valid_loc(cfg, op[1])
             if name is None:
@@ -163,37 +172,42 @@ def check_history(case, ctx):
                     return
             else:
                 g.data_location = op[1]
-                if name != cur and read_before:
+                if name != cur[k] and any(read_before):
                     changed_after_read = True
-                cur = name
-        # invariant after every step
-        rcfg = dict(cfg)
-        if cfg["cls"] != "esri":
-            rcfg["loc"] = cur
-        LOC, shape, _order = hg.ref(rcfg)
-        if g.data_location.name != cur:
-            ctx.violation("location-state", f"data_location is {g.data_location.name}, expected {cur} after {op}")
-            return
-        if tuple(g.data_shape) != tuple(shape):
-            ctx.violation("stale-data_shape", f"after {op}: data_shape {g.data_shape}, a fresh grid with location {cur} has {shape}")
-            return
-        if int(g.data_size) != int(np.prod(shape)):
-            ctx.violation("stale-data_size", f"after {op}: data_size {g.data_size}, fresh grid has {int(np.prod(shape))}")
-            return
-        if not _close(g.data_points, hg.flat_locs(rcfg)):
-            ctx.violation("stale-data_points", f"after {op}: data_points differ from a fresh grid with location {cur}")
-            return
+                cur[k] = name
+        # invariant after every step, for every live object
+        for j, o in enumerate(objs):
+            rcfg = dict(cfg)
+            if cfg["cls"] != "esri":
+                rcfg["loc"] = cur[j]
+            _LOC, shape, _order = hg.ref(rcfg)
+            who = "grid" if j == 0 else f"copy#{j}"
+            if o.data_location.name != cur[j]:
+                ctx.violation("location-state", f"{who}: data_location is {o.data_location.name}, expected {cur[j]} after {op}")
+                return
+            if tuple(o.data_shape) != tuple(shape):
+                ctx.violation("stale-data_shape", f"after {op}: {who}.data_shape {o.data_shape}, a fresh grid with location {cur[j]} has {shape}")
+                return
+            if int(o.data_size) != int(np.prod(shape)):
+                ctx.violation("stale-data_size", f"after {op}: {who}.data_size {o.data_size}, fresh grid has {int(np.prod(shape))}")
+                return
+            if not _close(o.data_points, hg.flat_locs(rcfg)):
+                ctx.violation("stale-data_points", f"after {op}: {who}.data_points differ from a fresh grid with location {cur[j]}")
+                return
     ctx.event("history-with-change-after-read" if changed_after_read else "history-plain")
+    if copies:
+        ctx.event("history-with-copies")
     ctx.nontrivial(changed_after_read)
 
 
+_idx = st.integers(0, 3)
 op_st = st.one_of(
-    st.tuples(st.just("read"), st.sampled_from(READS)),
-    st.tuples(st.just("read"), st.sampled_from(["data_shape", "data_size", "data_points"])),
-    st.tuples(st.just("copy"), st.booleans()),
-    st.tuples(st.just("setloc"), st.sampled_from(LOCS)),
-    st.tuples(st.just("setloc"), st.sampled_from(["CELLS", "POINTS"])),
-    st.tuples(st.just("setloc"), st.sampled_from(["CELLS", "POINTS"])),
+    st.tuples(st.just("read"), st.sampled_from(READS), _idx),
+    st.tuples(st.just("read"), st.sampled_from(["data_shape", "data_size", "data_points"]), _idx),
+    st.tuples(st.just("copy"), st.booleans(), _idx),
+    st.tuples(st.just("setloc"), st.sampled_from(LOCS), _idx),
+    st.tuples(st.just("setloc"), st.sampled_from(["CELLS", "POINTS"]), _idx),
+    st.tuples(st.just("setloc"), st.sampled_from(["CELLS", "POINTS"]), _idx),
 ).map(list)
 
 # ESRI grids admit only CELLS, so a location change can only happen on rect/uni grids
